@@ -1215,7 +1215,7 @@ func opSandwich(h *Hist) {
 		// the mutation happens further down, in a container the observed one holds (a cache at the top does not see it)
 		var below []*Node
 		for _, x := range sortedNodes(reach(n)) {
-			if x != n && x.Impl != nil && x.Derived == 0 {
+			if x != n && x.Impl != nil {
 				below = append(below, x)
 			}
 		}
